@@ -1660,6 +1660,7 @@ class PyCdlib:
         if self.enhanced_vd is not None:
             loc = self.pvd.root_directory_record().extent_location()
             self.enhanced_vd.root_directory_record().set_data_location(loc, loc)
+            self.enhanced_vd.root_directory_record().set_data_length(self.pvd.root_directory_record().get_data_length())
 
         if self.udf_anchors:
             self.udf_anchors[-1].set_extent_location(current_extent,
